@@ -34,7 +34,7 @@ L_CAP = 64
 C2 = ['v1', 'v2', 'x', 'v1', 'v10', 'v2']
 C3 = ['p;q', 'r', '', 's;t;u', 'p;q', 'r;r']
 
-ITEMS = ['a1', 'a2', 'a3', 'NR', "'lit'", 'a1 + a2']
+ITEMS = ['a1', 'a2', 'a3', 'NR', "'lit'", 'a1 + a2', 'NR % 2 - 2', 'NR % 3 - 2', 'a2', 'a1']
 UNNEST_ITEM = "UNNEST(a3.split(';'))"
 WHERES = [None, None, "a2 == 'v1'", 'NR <= 3', 'NR <= 5', "like(a2, 'v%')", 'a1 != a1', "a2 != 'zz'"]
 
@@ -391,7 +391,7 @@ def check_engine(sc, eng, counters, res, digest_parts):
                 bump(counters, 'discard.mixed_type_sort_key')
                 return 'discard'
             bump(counters, 'pure_clause_cases')
-            if full['outcome'] != ['ok'] or full['rows'] != expected:
+            if full['outcome'] != ['ok'] or not same(full['rows'], expected):
                 return ('order_model', {'got': full['rows'], 'outcome': full['outcome'], 'expected': expected, 'raw': raw['rows']})
         if sc.get('order') or sc.get('distinct'):
             if len(expected) < len(raw['rows']) or (sc.get('order') and len(set(core.canon(sort_key_of(sc, r)) for r in raw['rows'])) < len(raw['rows'])):
@@ -403,7 +403,7 @@ def check_engine(sc, eng, counters, res, digest_parts):
             return 'nontrivial' if nontrivial else None
         n = bound['n']
         b = do(build_query(sc), producer)
-        if b['outcome'] != ['ok'] or b['rows'] != full['rows'][:n]:
+        if b['outcome'] != ['ok'] or not same(b['rows'], full['rows'][:n]):
             return ('bound_prefix', {'got': b['rows'], 'outcome': b['outcome'], 'expected': full['rows'][:n], 'n': n})
         if n <= len(full['rows']):
             bump(counters, 'probe.bound_reached_finite')
@@ -447,7 +447,7 @@ def check_engine(sc, eng, counters, res, digest_parts):
         bump(counters, 'fault.overpull_detected')
         return ('consumption', {'pulls': b['pulls'], 'allowed': pstar, 'n': n, 'producer': producer['type'], 'shape': shape, 'outcome': b['outcome'],
                                 'output_complete': b['rows'] == ref['rows'][:n]})
-    if b['outcome'] != ['ok'] or b['rows'] != ref['rows'][:n]:
+    if b['outcome'] != ['ok'] or not same(b['rows'], ref['rows'][:n]):
         return ('bound_prefix', {'got': b['rows'], 'outcome': b['outcome'], 'expected': ref['rows'][:n], 'n': n})
     if b['pulls'] > pstar:
         return ('consumption', {'pulls': b['pulls'], 'allowed': pstar, 'n': n, 'producer': producer['type'], 'shape': shape})
@@ -462,6 +462,11 @@ def sort_key_of(sc, r):
     if o.get('exprs'):
         return r[len(r) - len(o['exprs']):]
     return [r[c] for c in o['cols']]
+
+
+def same(a, b):
+    # canonical JSON text, so that 8 and 8.0 (or 1 and True) are different
+    return core.canon(a) == core.canon(b)
 
 
 def pstar_of(ref, n):
